@@ -369,6 +369,31 @@ pub fn gen(tier: Tier, rng: &mut Rng64, out: &mut Out) {
             run("C10.opt", &[b], out);
         }
     }
+    // valid but non-canonical variants (duplicated node, unreachable node, redundant test, other numbering) of
+    // every function over <= 3 variables
+    for n in 1..=3usize {
+        for t in 0..(1u64 << (1u64 << n)) {
+            let b = bdd_of_tt(n, &tt_from_index(n, t));
+            for _ in 0..(if thorough { 4 } else { 1 }) {
+                let nc = noncanon_variant(rng, &b);
+                if nc != b { let s = fmt_bdd(&nc); run("C10.ext", &[s.clone()], out); run("C10.opt", &[s], out); }
+            }
+            // an unreachable node on each variable in turn: to_optimized_dnf must refuse exactly when the function
+            // ignores that variable (support_set() is syntactic), to_dnf / to_cnf must not care
+            let mut nodes: Vec<(usize, usize, usize)> = b.clone().to_nodes().iter().map(|x| (x.var.to_index(), x.low_link.to_index(), x.high_link.to_index())).collect();
+            if nodes.len() >= 3 {
+                let root = nodes.pop().unwrap();
+                for x in 0..n {
+                    let mut v = nodes.clone();
+                    v.push((x, 0, 1));
+                    v.push(root);
+                    let s = fmt_triples(&v);
+                    if thorough || x == (t as usize) % n { run("C10.ext", &[s.clone()], out); }
+                    run("C10.opt", &[s], out);
+                }
+            }
+        }
+    }
     if thorough {
         for t in 0..65536u64 {
             if t % 200 == 0 { wide.tick(out); }
@@ -394,7 +419,11 @@ pub fn gen(tier: Tier, rng: &mut Rng64, out: &mut Out) {
         run("C10.ext", &[bs.clone()], out);
         if rng.chance(1, 3) { run("C10.opt", &[bs], out); }
         // valid but non-canonical operand: the extractions are still semantic, the rebuild is canonical
-        if rng.chance(1, 6) { run("C10.ext", &[fmt_bdd(&noncanon_variant(rng, &b))], out); }
+        if rng.chance(1, 6) {
+            let nc = fmt_bdd(&noncanon_variant(rng, &b));
+            run("C10.ext", &[nc.clone()], out);
+            run("C10.opt", &[nc], out);   // refuses (panics) iff some node carries a variable the function ignores
+        }
     }
     // few-node diagrams over many variables with level gaps (clauses of conjunctions/disjunctions)
     for _ in 0..(if thorough { 2000 } else { 200 }) {
